@@ -251,6 +251,12 @@ func buildView(v View) sdkmetric.View {
 		mask.AttributeFilter = attribute.NewAllowKeysFilter(ks...)
 	case 2:
 		mask.AttributeFilter = attribute.NewDenyKeysFilter(ks...)
+	case 3, 4, 5:
+		// a hand-written filter deciding on key AND value (pure, no state)
+		f := v.fspec()
+		mask.AttributeFilter = func(kv attribute.KeyValue) bool {
+			return f.keepPair(string(kv.Key), vk.ValueKey(kv.Value))
+		}
 	}
 	return sdkmetric.NewView(crit, mask)
 }
@@ -613,6 +619,16 @@ func run(c Case) ([]vk.Violation, vk.Info) {
 			info.ClassIf(s.sawOverflow && !s.delta, "overflow_cumulative")
 			info.ClassIf(s.sawOverflow && s.precomputed(), "overflow_precomputed")
 			info.ClassIf(s.sawMerge, "filter_merges_sets")
+			if s.f.valueDependent() {
+				both := false
+				for k := range s.vfKept {
+					both = both || s.vfDropped[k]
+				}
+				info.Class("value_dependent_filter")
+				info.ClassIf(both, "value_dependent_filter_keeps_and_drops_values_of_one_key")
+				info.ClassIf(both && s.sawOverflow, "value_dependent_filter_both_sides_and_overflow")
+				info.ClassIf(both && s.sawMerge, "value_dependent_filter_both_sides_and_merge")
+			}
 			info.ClassIf(s.sawMerge && s.sawOverflow, "filter_merge_and_overflow")
 			info.ClassIf(s.explicitOvf && limit > 0, "explicit_overflow_set_with_limit")
 			info.ClassIf(s.ovfSlot, "explicit_overflow_set_among_first_L-1")
